@@ -28,11 +28,15 @@ def base_corpus(ctx, n_gen):
         progs["fam_" + k] = v
     for k in range(n_gen):
         progs["gen_%d_%d" % (ctx.seed, k)] = Gen(ctx.seed * 9000011 + k).program()
+    for k in range(n_gen // 3):
+        progs["genmap_%d_%d" % (ctx.seed, k)] = Gen(ctx.seed * 9000011 + 500000 + k, features={"maps": True}).program()
     # the specification's own example of static scoping (8.1) and a return inside a match arm
     progs["spec_8_1_static_scope"] = Program([
         Func("g", [], "int", [Ret(V("x"))]),
         Func("f", [], "int", [Let("x", "int", I(2)), Ret(Call("g"))]),
         Func("main", [], "int", [Println(Call("f")), Ret(I(0))])], globals_=[("x", "int", False, I(1))])
+    if os.environ.get("VERIF_ONLY"):          # developer aid: restrict the corpus to the programs whose id matches
+        progs = {k: v for k, v in progs.items() if re.search(os.environ["VERIF_ONLY"], k)}
     return progs
 
 
@@ -212,7 +216,8 @@ def run(ctx):
             hit = None
             for s in sws:
                 w = rc["%s|%s|%s" % (pid, kind, s)]["shadows"]
-                if len(w) == len(tests) and all(t["out"] == render_out(x["out"]) and (t["verdict"] == "FAILED") == (x["fails"] > 0)
+                if len(w) == len(tests) and any(x["status"] == "ok" for x in w) and not built[pid].get("twin_only") \
+                        and all(t["out"] == render_out(x["out"]) and (t["verdict"] == "FAILED") == (x["fails"] > 0)
                                                 for t, x in zip(tests, w) if x["status"] == "ok"):
                     hit = s; break
             if not hit:          # findings identified by the builtins the program calls (evaluator's static array model)
